@@ -186,6 +186,51 @@ pub fn drive(args: &[String]) {
         }
         id += 1;
     }
+    // ---- (a) face changes after a history on ONE encoder: what is written for the last command alone must read back as it
+    //      (face, modification touching one field, the same face again - and face, other face, first face)
+    let attrs = all_attrs();
+    for i in 0..120usize {
+        let f = Face::new(colors[1 + i % 5], colors[(i / 5) % colors.len()], attrs[(i * 7) % attrs.len()]);
+        let g = Face::new(colors[(i / 3) % colors.len()], colors[1 + (i / 2) % 5], attrs[(i * 11 + 3) % attrs.len()]);
+        let between: TerminalCommand = match i % 6 {
+            0 => TerminalCommand::FaceModify(FaceModify { underline_color: Some(RGBA::new(200, 100, 50, 255)), ..FaceModify::default() }),
+            1 => TerminalCommand::FaceModify(FaceModify { bold: Some(true), ..FaceModify::default() }),
+            2 => TerminalCommand::FaceModify(FaceModify { underline: Some(UnderlineStyle::Curly), ..FaceModify::default() }),
+            3 => TerminalCommand::FaceModify(FaceModify { fg: Some(RGBA::new(1, 2, 3, 255)), ..FaceModify::default() }),
+            4 => TerminalCommand::Face(g),
+            _ => TerminalCommand::Char('x'),
+        };
+        let res = guarded(|| {
+            let mut e = TTYEncoder::new(TerminalCaps { depth: ColorDepth::TrueColor, ..TerminalCaps::default() });
+            let mut outb = Vec::new();
+            e.encode(&mut outb, TerminalCommand::Face(f)).unwrap();
+            e.encode(&mut outb, between.clone()).unwrap();
+            let before = outb.len();
+            e.encode(&mut outb, TerminalCommand::Face(f)).unwrap();
+            let bytes = outb[before..].to_vec();
+            let cmds = decode_all(&bytes);
+            let decoded: Vec<Value> = cmds
+                .iter()
+                .map(|c| match c {
+                    TerminalCommand::FaceModify(d) => modify_desc(d),
+                    other => json!({"other": format!("{:?}", other)}),
+                })
+                .collect();
+            let applied: Vec<Value> = match cmds.first() {
+                Some(TerminalCommand::FaceModify(d)) => vec![face_json(&d.apply(plain)), face_json(&d.apply(busy))],
+                _ => vec![],
+            };
+            (bytes, decoded, applied)
+        });
+        let fexp = Face::new(f.fg, f.bg, f.attrs.remove(FaceAttrs::REVERSE));
+        let mut fj = face_json(&fexp);
+        fj["cmd"] = face_desc(&f)["cmd"].clone();
+        match res {
+            Ok((bytes, decoded, applied)) => out.rec(&json!({"id": id, "t": "face", "f": fj, "bytes": bytes, "decoded": decoded, "applied": applied, "history": true, "panic": ""})),
+            Err(e) => out.rec(&json!({"id": id, "t": "face", "f": fj, "bytes": [], "decoded": [], "applied": [], "history": true, "panic": e})),
+        }
+        id += 1;
+    }
     // ---- (a) text: every character except ESC reads back as itself
     let mut chars: Vec<char> = (0u32..128).filter(|c| *c != 27).filter_map(char::from_u32).collect();
     chars.extend(['é', 'ß', '€', '日', '🤩', '\u{80}', '\u{7ff}', '\u{800}', '\u{d7ff}', '\u{e000}', '\u{ffff}', '\u{10000}', '\u{10ffff}']);
